@@ -132,7 +132,7 @@ def run(tier: str, rep: Report):
     if not ovr_cases:
         rep.machinery_error(f"MC_Overrides emitted nothing: {ro.out[-300:]}")
     rnd = random.Random(seed() + 3)
-    limit = 4000 if tier == "quick" else 40000
+    limit = 4000 if tier == "quick" else 8000
     pool = Pool(SUPPORTED, per_version=4)
     files = []
     try:
